@@ -162,9 +162,9 @@ Theorem lex_scan_agrees_without_macro_definitions src : forallb ends_semi src = 
 Proof.
   intros H. unfold lex_accepts, full_accepts. rewrite (lex_finds_no_macro src H). clear H.
   generalize 0 at 1. generalize 0. induction src as [|x tl IH]; intros p q; simpl; [reflexivity|].
-  destruct x as [i|n]; simpl; [| reflexivity]. unfold clean0. destruct (item0_err i); simpl.
+  destruct x as [i|n]; simpl; [| reflexivity]. destruct (clean0 i) eqn:E; unfold clean0 in E; destruct (item0_err i); try discriminate; simpl.
+  - rewrite (IH (S p) q). destruct (scan_src q (S p) tl); reflexivity.
   - now rewrite andb_false_r.
-  - rewrite (IH p (S q)). destruct (scan_src p (S q) tl); reflexivity.
 Qed.
 
 (* ... and behind a macro definition it finds nothing *)
@@ -214,9 +214,9 @@ Proof. vm_compute. reflexivity. Qed.
 
 Definition ex_rel (n : nat) : bare0 := BRel n [0] false.
 Definition ex_lat (n : nat) : bare0 := BRel n [0] true.
-Definition ex_rule : bare0 := BRule {| s_heads := [HClause 0 [TVar (Base 0)]]; s_body := [SClause 0 [TVar (Base 0)] []] |}.
-Definition ex_fact : bare0 := BRule {| s_heads := [HClause 0 [TConst]]; s_body := [] |}.
-Definition ex_macro (n : nat) : bare0 := BMacro {| m_name := n; m_nparams := 1; m_body := [SClause 0 [TVar 0] []] |}.
+Definition ex_rule : bare0 := BRule {| s_heads := [HClause 0 1]; s_body := [SClause 0 [AVar (Base 0)] []] |}.
+Definition ex_fact : bare0 := BRule {| s_heads := [HClause 0 1]; s_body := [] |}.
+Definition ex_macro (n : nat) : bare0 := BMacro {| m_name := n; m_nparams := 1; m_body := [SClause 0 [AVar 0] []] |}.
 
 (* the body: relation, lattice, rule, fact, macro, macro, macro, relation *)
 Definition ex_body : list (list sattr * bare1) :=
